@@ -87,6 +87,8 @@ fn main() {
         FsOp::Delete { path: "src/moved.c".into() },
         FsOp::Delete { path: "src/sub/x~".into() },
         FsOp::WriteOlder { path: "src/b.h".into(), content: "older".into() },
+        FsOp::WriteMmap { path: "src/a.c".into(), content: "zz".into() },
+        FsOp::WriteMmap { path: "single.txt".into(), content: "q".into() },
         FsOp::Write { path: "single.txt".into(), content: "s2".into() },
         FsOp::Append { path: "single.txt".into(), content: "+".into() },
         FsOp::Touch { path: "single.txt".into() },
